@@ -1,10 +1,10 @@
 package rules
 
 import (
-	"os"
 	"fmt"
 	"go/token"
 	"go/types"
+	"os"
 	"sort"
 	"strings"
 
@@ -25,16 +25,79 @@ const (
 	pkgGommap     = "github.com/tysontate/gommap"
 )
 
+// ifaceShapes: the module's unexported interfaces used as anchors, recognised by their exact method set when the
+// type has been renamed (an unexported name is not an API object; its shape is).
+var ifaceShapes = map[string][]string{
+	"wasp.messageLog":                  {"Append", "Close", "Consume", "Get", "Stream"},
+	"wasp.midPool":                     {"Get", "Put"},
+	"wasp.publishDistributorTransport": {"Call"},
+}
+
 // im resolves an interface method anchor, reporting it unresolved through ru.
 func (c *Ctx) im(ru *report.Rule, pkg, iface, method string) *types.Func {
 	f := c.P.IfaceMethod(pkg, iface, method)
+	if f == nil {
+		if shape, ok := ifaceShapes[pkg+"."+iface]; ok {
+			f = c.ifaceMethodByShape(pkg, shape, method)
+		}
+	}
 	ru.Anchor(f != nil, pkg+"."+iface+"."+method)
 	return f
+}
+
+// ifaceMethodByShape finds method in the unique named interface of pkg whose method set is exactly shape.
+func (c *Ctx) ifaceMethodByShape(pkg string, shape []string, method string) *types.Func {
+	tp := c.P.TypesPkg(pkg)
+	if tp == nil {
+		return nil
+	}
+	var found *types.Func
+	n := 0
+	for _, name := range tp.Scope().Names() {
+		tn, ok := tp.Scope().Lookup(name).(*types.TypeName)
+		if !ok {
+			continue
+		}
+		it, ok := tn.Type().Underlying().(*types.Interface)
+		if !ok || it.NumMethods() != len(shape) {
+			continue
+		}
+		have := map[string]*types.Func{}
+		for i := 0; i < it.NumMethods(); i++ {
+			have[it.Method(i).Name()] = it.Method(i)
+		}
+		all := true
+		for _, m := range shape {
+			if have[m] == nil {
+				all = false
+			}
+		}
+		if all && have[method] != nil {
+			found = have[method]
+			n++
+		}
+	}
+	if n != 1 {
+		return nil
+	}
+	return found
 }
 
 // cm resolves a concrete method anchor.
 func (c *Ctx) cm(ru *report.Rule, pkg, typ, method string) *types.Func {
 	f := c.P.MethodObj(pkg, typ, method)
+	if f == nil && pkg == "wasp" && typ == "mqttServer" {
+		// the node's gRPC server, whatever its type is called: the module's implementation of the generated server interface
+		if im := c.P.IfaceMethod("wasp/api", "MQTTServer", method); im != nil {
+			for _, impl := range c.P.Implementations(im) {
+				if impl.Pkg != nil && impl.Pkg.Pkg.Path() == c.P.Rel("wasp") {
+					if o, ok := impl.Object().(*types.Func); ok {
+						f = o
+					}
+				}
+			}
+		}
+	}
 	ru.Anchor(f != nil, pkg+"."+typ+"."+method)
 	return f
 }
